@@ -128,7 +128,9 @@ claim("C13", "Lean 4 theorems (inversion of the decoders, coherence of the decod
       "re-encode/decode gives the same meaning) and encodes into every buffer >= pdu_len (rsp_decoded_coherent, rsp_decoded_encodes); for requests the same holds IFF the input is not a write-multiple-coils request whose data is "
       "shorter than ceil(quantity/8) (req_decoded_coherent_iff; ..._partial forms; witness for 0F 33 11 00 04 00, also through both ADU decoders); decoded register data holds exactly 2*quantity bytes and "
       "re-encode/decode returns the very same value (rsp_decoded_data_exact, rsp_redecode_exact); a decoded request can be encoded again IFF it is not in the truncated class (req_decoded_encodes_iff, req_decoded_reencodes, "
-      "req_decoded_qty_bound; after fix 39c2069) (Props/C13.lean).",
+      "req_decoded_qty_bound; after fix 39c2069) (Props/C13.lean). Props/C13Stage.lean: after the request scanner has framed a PDU, the PDU stage of the two request ADU decoders fails IF AND ONLY IF the PDU has one of four listed shapes "
+      "(0x05 with an illegal coil value -> CoilValue; 0x0F whose quantity no byte count can describe, 0x10 / 0x17 whose byte count is not 2*quantity -> ByteCount), never with a panic, BufferSize or FnCode; for the eleven other accepted codes it cannot fail; "
+      "every error of the ADU decoders is either the scanner's own or one of these (tcp/rtu_req_pdu_stage_iff, ..._server_request_errors; the RTU shapes are wider for 0x0F/0x10 because of open finding D4, each cause realised by an example).",
       "The excluded region is exactly open finding D5b, pinned by the unedited unit test deserialize_requests::write_multiple_coils; see KNOWN_FINDINGS.txt.")
 
 claim("C19", "Lean 4 theorems (the encoder's outcome is a function of `fits`) + differential correspondence at sizes 120..300, 1000, 32767..70000 words and 1960..2100, 4000, 65536+ coils",
